@@ -53,6 +53,9 @@ namespace net
       return;
     if (queue_clean)
     {
+      check_fixpoint();
+      if (stop)
+        return;
       check_n3();
       if (stop)
         return;
@@ -116,6 +119,45 @@ namespace net
       one(p.first, "lra");
     for (auto &p : dl_edges)
       one(p.first, p.second.th == IDL ? "idl" : "rdl");
+  }
+
+  // N11: with an empty propagation queue and no conflict reported, unit propagation is at its fixpoint over every clause the
+  // network was ever given (new_clause, from callers, constructs and theories alike) or recorded itself (learnt clauses,
+  // theory lemmas): none is falsified, none has all literals false but one that is still unassigned. Which values follow is then
+  // a function of the clauses and the assigned literals alone, whatever was decided and undone before (two watched literals
+  // that survive backjumps and pops).
+  void Run::check_fixpoint()
+  {
+    if (!(enabled & O_N11))
+      return;
+    cnt.inc("fixpoint_checks");
+    for (auto &c : all_clauses)
+    {
+      size_t open = 0;
+      lit last;
+      bool sat_already = false;
+      for (auto &l : c)
+      {
+        smt::lbool v = sat->value(l);
+        if (v == smt::True)
+        {
+          sat_already = true;
+          break;
+        }
+        if (v == smt::Undefined)
+          ++open, last = l;
+      }
+      if (sat_already || open >= 2)
+        continue;
+      std::string txt;
+      for (auto &l : c)
+        txt += " " + lstr(l) + "=" + vstr(sat->value(l));
+      if (open == 0)
+        viol(O_N11, "N11", "N11.clause_falsified", "propagation succeeded but every literal of a clause of the network is false:" + txt + " (level " + std::to_string(sat->decision_level()) + ")");
+      else
+        viol(O_N11, "N11", "N11.unit_not_propagated", "the propagation queue is empty but a clause of the network has all its literals false except " + lstr(last) + ", which is still unassigned:" + txt + " (level " + std::to_string(sat->decision_level()) + ")");
+      return;
+    }
   }
 
   void Run::take_snapshot()
